@@ -44,6 +44,7 @@ structure Hw where
   inp : List Nat
   ival : List Nat
   orecv : List Nat
+  pipes : List (Option Nat) := []     -- addp/multp/divp: state, input_a, input_b (where the opcode exists)
 
 structure St where
   arch : Arch := { rsize := 8, r := 1, n := 0, m := 0, l := 0, o := 1, ops := [] }
@@ -60,10 +61,11 @@ def joinB (l : List Bool) : String := ",".intercalate (l.map fun b => if b then 
 
 def dump (s : VmState) : String :=
   let d := s.deferred.mergeSort (· ≤ ·)
-  s!"X pc={s.pc} r={joinN s.regs} o={joinN s.outputs} ov={joinB s.outValid} ir={joinB s.inRecv} d={joinN d}"
+  let ph := (["addp", "divp", "multp"].filter fun o => s.phase.contains o)
+  s!"X pc={s.pc} r={joinN s.regs} o={joinN s.outputs} ov={joinB s.outValid} ir={joinB s.inRecv} d={joinN d} ph={",".intercalate ph}"
 
-def dumpHw (tag : String) (pc : Nat) (regs auxo : List Nat) (ov ir : List Bool) (w : Bool) : String :=
-  s!"{tag} pc={pc} r={joinN regs} o={joinN auxo} ov={joinB ov} ir={joinB ir} w={if w then 1 else 0}"
+def dumpHw (tag : String) (pc : Nat) (regs auxo : List Nat) (ov ir : List Bool) (w : Bool) (pipes : List Nat) : String :=
+  s!"{tag} pc={pc} r={joinN regs} o={joinN auxo} ov={joinB ov} ir={joinB ir} w={if w then 1 else 0} pp={joinN pipes}"
 
 def bools (s : String) : List Bool := (commaList s).map (· == "1")
 def nats (s : String) : List Nat := (commaList s).map nat!
@@ -82,13 +84,16 @@ def mkHw (a : Arch) (line : String) : R Hw := do
   let inp ← (List.range a.n).mapM fun k => d.sigIdx s!"i{k}"
   let ival ← (List.range a.n).mapM fun k => d.sigIdx s!"i{k}_valid"
   let orecv ← (List.range a.m).mapM fun k => d.sigIdx s!"o{k}_received"
-  pure { d, clk, reset, pc, regs, auxo, oval, irecv, waitsm := d.sigIdx? (p ++ "waitsm"), inp, ival, orecv }
+  let pipes := (["addp", "multp", "divp"].map fun o =>
+    [d.sigIdx? (p ++ s!"{o}_0_state"), d.sigIdx? (p ++ s!"{o}_0_input_a"), d.sigIdx? (p ++ s!"{o}_0_input_b")]).flatten
+  pure { d, clk, reset, pc, regs, auxo, oval, irecv, waitsm := d.sigIdx? (p ++ "waitsm"), inp, ival, orecv, pipes }
 
 def hwDump (h : Hw) (st : State) : String :=
   dumpHw "Y" (st.get h.pc) (h.regs.map st.get) (h.auxo.map st.get)
     (h.oval.map fun o => match o with | some i => st.get i != 0 | none => false)
     (h.irecv.map fun o => match o with | some i => st.get i != 0 | none => false)
     (match h.waitsm with | some i => st.get i != 0 | none => false)
+    (h.pipes.map fun o => match o with | some i => st.get i | none => 0)
 
 /-- registers the processes `oK_val` / `iK_recv` / `waitsm` exist only if some opcode declares them -/
 def rtlDump (h : Option Hw) (s : RtlState) : String :=
@@ -99,6 +104,8 @@ def rtlDump (h : Option Hw) (s : RtlState) : String :=
     ((List.range s.oVal.length).map fun k => has (fun hw => hw.oval) k && s.oVal.getD k false)
     ((List.range s.iRecv.length).map fun k => has (fun hw => hw.irecv) k && s.iRecv.getD k false)
     ((match h with | some hw => hw.waitsm.isSome | none => true) && s.waitsm)
+    (let raw := [s.pAdd, s.pMult, s.pDiv].flatMap fun pp => [if pp.st then 1 else 0, pp.a, pp.b]
+     (List.range raw.length).map fun k => if has (fun hw => hw.pipes) k then raw.getD k 0 else 0)
 
 def step (st : St) (line : String) : St × List String :=
   if line.startsWith "H " then
@@ -122,10 +129,13 @@ def step (st : St) (line : String) : St × List String :=
     -- hypothesis of `onlyDestRegs_sound`: the sets the generator used contain the model's destRegs;
     -- when something was recorded for an opcode (not every arm kept) the sets must be equal
     let all := 2 ^ st.arch.r
+    let recorded := fun (key : String) =>
+      if key.endsWith "/src" then Rtl.srcRegs st.arch st.prog (key.dropEnd 4).toString
+      else Rtl.destRegs st.arch st.prog key
     let sound := used.all fun (op, regs) =>
-      (Rtl.destRegs st.arch st.prog op).all (fun r => regs.contains r)
+      (recorded op).all (fun r => regs.contains r)
     let exact := used.all fun (op, regs) =>
-      regs.length == all || regs.all (fun r => (Rtl.destRegs st.arch st.prog op).contains r)
+      regs.length == all || regs.all (fun r => (recorded op).contains r)
     let pruned := used.any fun (_, regs) => regs.length < all
     ({ st with used := some used },
       [if sound && exact then (if pruned then "O ok pruned" else "O ok") else "O destregs-differ " ++ line])
